@@ -32,6 +32,13 @@ def impl_batch(case):
             wa = np.array(res["karv"]["accept"])
             res["dist_many"] = float(distortion(wa, vp))
             res["dist_one"] = float(distortion(int(wa[0]), vp))
+            arr = to_np(vals)
+            if np.all(arr == np.round(arr)) and arr.max() <= 120 and arr.min() >= 0:
+                # integer valuations in a compact storage type (sums over the agents exceed what the storage type itself can hold)
+                from socialchoicekit.profile_utils import IntegerValuationProfile
+                res["dist_int"] = {}
+                for dt in ("int8", "uint8", "int16", "int32", "int64"):
+                    res["dist_int"][dt] = float(distortion(wa, IntegerValuationProfile.of(arr.astype(dt))))
             if it.get("tsf"):
                 a = persist_rule(("tsf", k, True), lambda: LambdaTSF(lambda_=k, zero_indexed=True)).scf(prof, ValuationProfileElicitor(vp))
                 res["tsf"] = [int(x) for x in a]
@@ -76,6 +83,12 @@ def judge(R, it, res, lean):
         if abs(Fraction(got) - want) > Fraction(1, 10 ** 9) * max(1, want) or got < 1 - 1e-12:
             R.violation("property_violation", "distortion helper = max welfare / welfare of the (worst) chosen alternative, never below 1",
                         ENTRY + " distortion", inp, impl_output=got, oracle={"expected": float(want), "case": what})
+            return
+    for dt, got in (res.get("dist_int") or {}).items():
+        R.count("distortion_integer_storage")
+        if abs(Fraction(got) - want_many) > Fraction(1, 10 ** 9) * max(1, want_many):
+            R.violation("property_violation", "distortion helper = max welfare / welfare of the (worst) chosen alternative, whatever the integer storage type",
+                        ENTRY + " distortion", dict(inp, storage=dt), impl_output=got, oracle={"expected": float(want_many)})
             return
     t = lean["dist"].split()
     if t[0] != "ok" or abs(Fraction(t[1]) - Fraction(res["dist_many"])) > Fraction(1, 10 ** 9) * max(1, Fraction(t[1])):
